@@ -55,7 +55,7 @@ def cur(t):
 
 
 def run_config(tdgl, zoo, config, outmode, k):
-    dev = zoo.device({"hole_terminals": "G2", "four_terminals": "G4"}.get(config, "G1"), memo=False, lam=(0.8 if config == "screening" else 2.0),
+    dev = zoo.device({"hole_terminals": "G2", "four_terminals": "G4"}.get(config, "G1"), memo=False, lam=(0.8 if config in ("screening", "seeded_twice") else 2.0),
                      terminals=(config in ("hole_terminals", "callable_currents", "four_terminals")))
     dt = 2.0**-5
     o = dict(solve_time=6 * dt, dt_init=dt, dt_max=dt, adaptive=False, save_every=2, progress_interval=10**9)
@@ -82,6 +82,16 @@ def run_config(tdgl, zoo, config, outmode, k):
         dt = 2.0**-7
         o.update(solve_time=6 * dt, dt_init=dt, dt_max=dt)
         kw["terminal_currents"] = {"source": 0.4, "drain": -0.4}
+    if config == "seeded_twice":
+        # a relaxed screened state is used as the seed of two identical runs in the same process (the same Solution object)
+        o.update(include_screening=True, screening_tolerance=1e-3)
+        os.makedirs(f"st_{k}", exist_ok=True)
+        seed = tdgl.solve(dev, tdgl.SolverOptions(output_file=os.path.abspath(f"st_{k}/seed.h5"), **o), applied_vector_potential=0.2)
+        ds = []
+        for rep in (0, 1):
+            sol = tdgl.solve(dev, tdgl.SolverOptions(output_file=os.path.abspath(f"st_{k}/run{rep}.h5"), **o), applied_vector_potential=0.5, seed_solution=seed)
+            ds.append(digest_file(sol.path, dev.mesh))
+        return "file:" + ds[0] + ("" if ds[0] == ds[1] else "|repeat-differs:" + ds[1])
     if outmode == "temp":
         sol = tdgl.solve(dev, tdgl.SolverOptions(**o), **kw)
         # memory-only: digest what the solution exposes
